@@ -31,6 +31,7 @@ if subprocess.call(["git", "-C", "/repo", "apply", "--check", os.path.join(d, "p
 else:
     m["check_exit_on_seed"] = "patch does not apply to the current /repo HEAD"
 m["caught_keys"] = keys
+m["detected"] = bool(keys) or m.get("check_exit_on_seed") == 1
 m["caught_by"] = caught
 json.dump(m, open(os.path.join(d, "meta.json"), "w"), indent=1)
 print(d, m["check_exit_on_seed"], keys[:3])
